@@ -323,6 +323,13 @@ func Run(c *core.Ctx, pool *gjs.Pool) {
 		c.Distinct(l.key())
 		st.reachKinds["linkname"]++
 	}
+	for i, w := range witnessScens {
+		tag := fmt.Sprintf("wt%d", i)
+		files, want := renderWitness(w, tag)
+		batchable = append(batchable, &unit{tag: tag, kind: "witness", key: "witness/" + w.name, files: files, imports: []string{"vp/" + tag}, call: tag + ".Run", want: want, wantEnd: "exit"})
+		c.Distinct("witness/" + w.name)
+		st.reachKinds["witness"]++
+	}
 	if !c.Thorough() {
 		// the panicking initialisers each need a program of their own: the quick
 		// tier runs the unread ones (the defect F4 shapes) and a seeded few of the rest
